@@ -14,7 +14,11 @@ RULE = ('case = (table, backend, sequence of measure names); the lattice is Conc
         'the real stability / stability_bounds / log_stability_lbound are called and calc_concepts_measures(name, K) + '
         'L.measures are observed after every name; floats are converted exactly with fractions.Fraction; exhaustive over '
         'all tables of the tier scope x 3 backends, then seeded random tables with 3..10 objects and 2..7 attributes (extents <= 10); '
-        'non-trivial = table neither all-true nor all-false with >= 2 rows; distinct = distinct (table, backend, names)')
+        'streams beyond the complete from_context lattice: `reordered` (same concepts, other listing orders), `pruned` (Sofia with a small '
+        'L_max, sub-selections keeping top and bottom, lattices after remove: ONLY stability = definition is judged there, the '
+        'bounds presuppose the complete lattice), `history` (intermediate calc_concepts_measures on a reduced / partial / '
+        'object-sharing lattice, then the complete lattice restored from the SAME concept objects and judged as usual); '
+        'non-trivial = table neither all-true nor all-false with >= 2 rows; distinct = distinct (table, backend, names, variant)')
 EXHAUSTIVE = {'quick': 'all tables with n<=4 objects, m<=3 attributes (5050) x 3 backends, every concept of each lattice',
               'thorough': 'all tables with n<=5, m<=4, n*m<=15 (43242) x 3 backends, every concept of each lattice'}
 EXPLANATION = ('stability is pinned uniquely (Fca.C16.stability_def: model = |{S<=A | S\'=B}|/2^|A|), so an implementation value '
@@ -22,8 +26,10 @@ EXPLANATION = ('stability is pinned uniquely (Fca.C16.stability_def: model = |{S
                'exponentiated log bound (1-Stab)*2^Dmin <= |M| are evaluated in exact rational arithmetic by the Lean driver on the '
                'IMPLEMENTATION\'s numbers, and in floating point (margin 1e-9) on the harness side; the model values (proved to '
                'satisfy all of these for every concept lattice) are compared with the implementation as well')
-ASSUMPTIONS = ['tables have n>=1 rows and m>=1 columns', 'the lattice is the one from_context builds (all concepts + cover relation); '
-               'the driver re-checks that against the brute-force concept set on every case',
+ASSUMPTIONS = ['tables have n>=1 rows and m>=1 columns', 'bounds / log bound / arrays are judged on complete concept lattices (from_context, re-ordered, or restored through a '
+               'remove/add/grow/shared-object history; the driver re-checks completeness + covers against the brute-force concept '
+               'set on every such case); on pruned lattices (Sofia L_max, sub-selections, after remove) only stability = definition '
+               'is judged, every listed pair being re-checked to be a genuine concept',
                'extent sizes <= 10 in the random stream (exact stability is exponential)',
                'implementation floats are dyadic rationals converted exactly; only the log bound (an irrational) is compared with '
                'a 1e-9 tolerance, after recovering its integer part Dmin exactly']
@@ -79,6 +85,28 @@ def gen(tier, seed, boost=False):
     for i, rows in enumerate(tabs):
         for order in ('reversed', 'rotated', ['shuffle', rng2.randrange(10 ** 6)], ['readd', rng2.randrange(10 ** 6)]):
             yield dict(stream='reordered', be=BACKENDS[i % 3], rows=rows, names=[NAMES[i % len(NAMES)]], order=order)
+    # lattices that are NOT the complete concept lattice: only `stability` = definition is judged
+    rng3 = random.Random(seed * 104729 + 1617)
+    small = [rows for rows in G.tables_upto(4, 3) if G.is_mixed(rows) and len(rows) >= 3]
+    rng3.shuffle(small)
+    ptabs = small[:100 if tier == 'quick' else 600] + \
+        [G.random_table(rng3, 8, 6, nmin=3, mmin=2) for _ in range(120 if tier == 'quick' else 1200)]
+    for i, rows in enumerate(ptabs):
+        for prune in (['sofia', rng3.choice([1, 2, 3, 4, 6])], ['select', rng3.randrange(10 ** 6)],
+                      ['remove', rng3.randrange(10 ** 6)]):
+            yield dict(stream='pruned', be=BACKENDS[i % 3], rows=rows, names=[], prune=prune)
+    # histories: measures computed on a reduced lattice first, then on the complete lattice made of the same concept objects
+    htabs = small[100:180 if tier == 'quick' else 700] + \
+        [G.random_table(rng3, 8, 6, nmin=3, mmin=2) for _ in range(120 if tier == 'quick' else 1200)]
+    for i, rows in enumerate(htabs):
+        for kind in ('remove', 'grow', 'shared'):
+            mid = [rng3.choice(NAMES[:3])] if rng3.random() < 0.8 else [rng3.choice(NAMES) for _ in range(2)]
+            # the final calls recompute every measure family touched before (so that no partial, stale key is left on
+            # the shared concept objects) and always one of the bounds names
+            names = [rng3.choice(NAMES[:3])] + [nm for nm in dict.fromkeys(mid) if nm not in NAMES[:3]]
+            names += [rng3.choice(NAMES) for _ in range(rng3.randint(0, 1))]
+            rng3.shuffle(names)
+            yield dict(stream='history', be=BACKENDS[i % 3], rows=rows, names=names, hist=[kind, rng3.randrange(10 ** 6)], mid=mid)
     # seeded random larger cases (extents up to 10)
     nrand = 400 if tier == 'quick' else 4000
     if boost:
@@ -150,7 +178,71 @@ def _lattice(c):
             conc = L[i]
             L.remove(conc)
             L.add(conc)
+    if c.get('prune'):
+        L = _prune(c, K, L)
+    if c.get('hist'):
+        L = _history(c, K, L)
     return K, L
+
+
+def _mid(L):
+    return [i for i in range(len(L)) if i not in (L.top, L.bottom)]
+
+
+def _prune(c, K, L):
+    """a lattice holding only SOME concepts of the context (each still a genuine concept of K)"""
+    from fcapy.lattice import ConceptLattice
+    kind, arg = c['prune']
+    if kind == 'sofia':
+        return ConceptLattice.from_context(K, algo='Sofia', L_max=arg)
+    r = random.Random(arg)
+    mid = _mid(L)
+    if kind == 'select':
+        keep = {i for i in mid if r.random() < 0.5}
+        return ConceptLattice([x for i, x in enumerate(L) if i in keep or i in (L.top, L.bottom)])
+    if kind == 'remove' and mid:
+        for x in [L[i] for i in r.sample(mid, min(len(mid), r.randint(1, 2)))]:
+            L.remove(x)
+    return L
+
+
+def _history(c, K, L):
+    """intermediate calc_concepts_measures calls on a reduced / partial / object-sharing lattice; returns the complete
+    lattice made of the SAME concept objects"""
+    from fcapy.lattice import ConceptLattice
+    kind, arg = c['hist']
+    r = random.Random(arg)
+
+    def mid_calc(X):
+        for nm in c['mid']:
+            X.calc_concepts_measures(nm, K)
+        m = X.measures
+        assert all(len(v) == len(X) for v in m.values()), 'intermediate measures arrays of unequal length'
+
+    mid = _mid(L)
+    if kind == 'remove':
+        victims = [L[i] for i in r.sample(mid, min(len(mid), r.randint(1, 2)))]
+        for x in victims:
+            L.remove(x)
+        mid_calc(L)
+        for x in victims:
+            L.add(x)
+    elif kind == 'grow':
+        allc = list(L)
+        first = [x for i, x in enumerate(allc) if i in (L.top, L.bottom) or r.random() < 0.4]
+        rest = [x for x in allc if not any(x is y for y in first)]
+        r.shuffle(rest)
+        L = ConceptLattice(first)
+        mid_calc(L)
+        for k, x in enumerate(rest):
+            L.add(x)
+            if r.random() < 0.25:
+                mid_calc(L)
+    elif kind == 'shared':
+        keep = {i for i in mid if r.random() < 0.4}
+        small = ConceptLattice([x for i, x in enumerate(L) if i in keep or i in (L.top, L.bottom)])
+        mid_calc(small)
+    return L
 
 
 def impl(c):
@@ -172,6 +264,10 @@ def impl(c):
                    children=[ints(list(L.children(i))) for i in range(n)],
                    n_bin_attrs=int(K.n_bin_attrs))
         out['stab'] = [frac(cms.stability(i, L, K)) for i in range(n)]
+        if c.get('prune'):
+            L.calc_concepts_measures('stability', K)
+            out['calls'] = [_canon_arrays(L.measures, K.n_bin_attrs)]
+            return out
         bs = [cms.stability_bounds(i, L) for i in range(n)]
         out['lb'] = [frac(b[0]) for b in bs]
         out['ub'] = [frac(b[1]) for b in bs]
@@ -179,6 +275,9 @@ def impl(c):
         calls = []
         for nm in c['names']:
             L.calc_concepts_measures(nm, K)
+            if not c.get('hist'):
+                calls.append(_canon_arrays(L.measures, K.n_bin_attrs))
+        if c.get('hist'):   # keys of the intermediate calls are complete only after the last final call
             calls.append(_canon_arrays(L.measures, K.n_bin_attrs))
         out['calls'] = calls
         return out
@@ -197,6 +296,9 @@ def requests(c, io):
                      children=[ints(list(L.children(i))) for i in range(len(L))])]
     if 'err' in io:
         return []
+    if c.get('prune'):
+        return [dict(op='C16.table', be=SHORT[c['be']], rows=c['rows'], w=w, concepts=io['concepts'], children=io['children'],
+                     stab=io['stab'], lb=[], ub=[], logd=[], names=[])]
     return [dict(op='C16.table', be=SHORT[c['be']], rows=c['rows'], w=w, concepts=io['concepts'], children=io['children'],
                  stab=io['stab'], lb=io['lb'], ub=io['ub'],
                  logd=[(x['d'] if x['d'] is None or x['d'] >= 0 else 0) for x in io['log']], names=c['names'])]
@@ -228,7 +330,23 @@ def judge(c, io, rep):
         return _bad('property', 'raised:' + io['err'], f'implementation raised {io["err"]}: {io.get("msg")}')
     r = rep[0]
     n = len(io['concepts'])
-    # ---- the property on the implementation's own numbers (oracle: Lean spec + exact arithmetic) ----
+    if c.get('prune'):
+        # not the complete lattice: stability is defined by the concept and the context alone, so it is still pinned;
+        # the bounds / log bound presuppose the complete lattice and are not judged here
+        for i in range(n):
+            if io['stab'][i] != r['def'][i]:
+                return _bad('property', 'stab-def', f'pruned lattice {c["prune"]}, concept {i} {io["concepts"][i]} '
+                                                      f'(children {io["children"][i]}): stability {io["stab"][i]} but '
+                                                      f'|{{S<=A | S\'=B}}|/2^|A| = {r["def"][i]}')
+        arr = dict((k, v) for k, v in io['calls'][0])
+        if arr.get('Stab') != io['stab']:
+            return _bad('property', 'arrays', f'pruned lattice: measures["Stab"] {arr.get("Stab")} is not the list of '
+                                                f'per-concept stabilities {io["stab"]}')
+        if not r['concepts_ok']:
+            return _bad('correspondence', 'lattice', f'a pruned lattice holds a non-concept: {io["concepts"]}')
+        if r['stab'] != r['def']:
+            return _bad('harness', 'model-def', f'model stability {r["stab"]} != definition {r["def"]} (contradicts stability_def)')
+        return dict(ok=True)
     for i in range(n):
         if io['stab'][i] != r['def'][i]:
             return _bad('property', 'stab-def', f'concept {i} {io["concepts"][i]}: stability {io["stab"][i]} but '
@@ -248,9 +366,19 @@ def judge(c, io, rep):
         if not r['impl_log'][i]:
             return _bad('property', 'log', f'concept {i} {io["concepts"][i]}: exponentiated log bound fails: '
                                              f'(1-{io["stab"][i]})*2^{lg["d"]} > {io["n_bin_attrs"]}')
-    for k, arrays in enumerate(io['calls']):
+    last = len(c['names']) - 1
+    for k, arrays in ([(last, io['calls'][0])] if c.get('hist') else enumerate(io['calls'])):
         if not arrays:
             return _bad('property', 'arrays', f'no measure stored after calc_concepts_measures({c["names"][k]!r})')
+        ad = dict((k, v) for k, v in arrays)
+        for i in range(n):
+            d = Fraction(*r['def'][i])
+            for key, ok in (('LStab', lambda x: x <= d), ('UStab', lambda x: d <= x), ('Stab', lambda x: x == d)):
+                v = ad.get(key)
+                if v is not None and i < len(v) and v[i] is not None and not ok(Fraction(*v[i])):
+                    return _bad('property', 'bracket' if key != 'Stab' else 'stab-def',
+                                f'after {c.get("hist") or ""}{c["names"][:k + 1]}: stored {key}[{i}] = {v[i]} but the stability of '
+                                f'concept {io["concepts"][i]} is {r["def"][i]} (LStab <= Stab <= UStab must hold)')
         for name, vs in arrays:
             if len(vs) != n or any(v is None for v in vs):
                 return _bad('property', 'arrays', f'after {c["names"][:k + 1]}: measures[{name!r}] has {len(vs)} values '
@@ -273,9 +401,11 @@ def judge(c, io, rep):
     if ml != il:
         return _bad('correspondence', 'logval', f'log_stability_lbound (Dmin, n) {il} != model {ml}')
     # arrays after each call
-    if len(r['calls']) != len(io['calls']):
+    if len(r['calls']) != len(c['names']) or (not c.get('hist') and len(r['calls']) != len(io['calls'])):
         return _bad('correspondence', 'calls', f'model calls {r["calls"]} vs implementation {io["calls"]}')
-    for k, (ia, ma) in enumerate(zip(io['calls'], r['calls'])):
+    pairs = [(last, io['calls'][0], r['calls'][-1])] if c.get('hist') else \
+        [(k, ia, ma) for k, (ia, ma) in enumerate(zip(io['calls'], r['calls']))]
+    for k, ia, ma in pairs:
         if isinstance(ma, dict):
             return _bad('correspondence', 'calls', f'model raised {ma} at call {k}')
         ia2 = [[name, [([v['d'], io['n_bin_attrs']] if isinstance(v, dict) else v) for v in vs]] for name, vs in ia]
@@ -285,6 +415,8 @@ def judge(c, io, rep):
             if direct is not None and vs != direct:
                 return _bad('property', 'arrays', f'after {c["names"][:k + 1]}: measures[{name!r}] {vs} is not the list of '
                                                     f'per-concept values {direct} of the measure function')
+        if c.get('hist'):   # the concept objects carry keys in the insertion order of the earlier calls
+            ia2, ma = sorted(ia2), sorted(ma)
         if ia2 != ma:
             return _bad('correspondence', 'arrays-val', f'after {c["names"][:k + 1]}: measures {ia2} != model {ma}')
     return dict(ok=True)
@@ -295,7 +427,7 @@ def nontrivial(c):
 
 
 def key(c):
-    return [c.get('rows'), c.get('be'), c.get('names'), c.get('kind'), c.get('s'), c.get('name'), c.get('order')]
+    return [c.get('rows'), c.get('be'), c.get('names'), c.get('kind'), c.get('s'), c.get('name'), c.get('order'), c.get('prune'), c.get('hist'), c.get('mid')]
 
 
 def branch(c, io, rep):
@@ -304,6 +436,17 @@ def branch(c, io, rep):
         return out + [c.get('kind') or 'err']
     out.append(c['be'])
     n = len(io['concepts'])
+    if c.get('prune'):
+        out.append('pruned:' + c['prune'][0])
+        if any(len(ch) == 1 for ch in io['children']):
+            out.append('pruned:single-child')
+        if any(len(io['children'][i]) == 1 and
+               1 - Fraction(2) ** (len(io['concepts'][io['children'][i][0]][0]) - len(io['concepts'][i][0])) != Fraction(*io['stab'][i])
+               for i in range(n)):
+            out.append('pruned:single-child-not-cover')
+        return out
+    if c.get('hist'):
+        out.append('history:' + c['hist'][0])
     out.append('concepts:%s' % ('1' if n == 1 else '2-4' if n <= 4 else '5-8' if n <= 8 else '9-16' if n <= 16 else '17+'))
     out.append('maxextent:%d' % max(len(x[0]) for x in io['concepts']))
     fr = lambda p: Fraction(p[0], p[1])
